@@ -64,6 +64,7 @@ def run(ctx):
     vlib.design_check(ctx, "FilePool.tla", "MC_FilePool.cfg", DEPS, timeout=1200, workers=2, heap="2g")
     if not quick:
         vlib.design_check(ctx, "FilePool.tla", "MC_FilePool_big.cfg", DEPS, timeout=3000, workers=4, heap="4g")
+        vlib.design_check(ctx, "FilePool.tla", "MC_FilePool_ss4.cfg", DEPS, timeout=3000, workers=4, heap="4g")
     # 2. the real code
     binary = vlib.go_build_test(ctx, "filepool")
     tv_timeout = 1500 if quick else 3000
@@ -73,7 +74,7 @@ def run(ctx):
     # 2a. seeded random interleavings on 1-3 files, random tiny configurations, scripted faults
     if "rand" in only:
         out = _drive(ctx, binary, "TestRandom", "rand",
-                     {"VERIF_N": int(scale * (300 if quick else 3000)), "VERIF_STEPS": 30 if quick else 40})
+                     {"VERIF_N": int(scale * (300 if quick else 2000)), "VERIF_STEPS": 30 if quick else 40})
         ctx.cov["samples"] += vlib.sample_lines(out + "/trace.ndjson", 8)
         _validate(ctx, out + "/trace.ndjson", out, "random", classify, tv_timeout)
         rmeta = json.load(open(out + "/meta.json"))
